@@ -380,3 +380,14 @@ def steps(ctx, name, n_lo, n_hi, body, kind='ensures', inst=()):
             break             # later steps would be proved from a failed one
         proved.append(st)
     return ok
+
+
+def symbolise(ctx, o, prefix, positive=True, keep=()):
+    """an object built by its REAL constructor keeps all its fields; every numeric field becomes an arbitrary
+    (positive) real named <prefix><field>, so contracts do not depend on default values"""
+    from fractions import Fraction as _F
+    for k, v in list(o.fields.items()):
+        if k in keep or isinstance(v, bool) or not isinstance(v, (int, _F)):
+            continue
+        o.fields[k] = real(ctx, prefix + k, (lambda x: x > 0) if positive else (lambda x: True))
+    return o
